@@ -319,7 +319,12 @@ func (t *Frontend) handleRequest(r Request, w ResponseWriter) (actionName string
 
 		WriteAnnounce(w, txID, resp, actionID == announceV6ActionID, req.IP.AddressFamily == bittorrent.IPv6)
 
-		go t.logic.AfterAnnounce(ctx, req, resp)
+		// Stop waits for the post-response hook like for the handler itself.
+		t.wg.Add(1)
+		go func() {
+			defer t.wg.Done()
+			t.logic.AfterAnnounce(ctx, req, resp)
+		}()
 
 	case scrapeActionID:
 		actionName = "scrape"
@@ -352,7 +357,11 @@ func (t *Frontend) handleRequest(r Request, w ResponseWriter) (actionName string
 
 		WriteScrape(w, txID, resp)
 
-		go t.logic.AfterScrape(ctx, req, resp)
+		t.wg.Add(1)
+		go func() {
+			defer t.wg.Done()
+			t.logic.AfterScrape(ctx, req, resp)
+		}()
 
 	default:
 		err = errUnknownAction
